@@ -44,18 +44,20 @@ def dy(rng, mlo, mhi, elo, ehi):
 
 def rand_g3(rng, equal=None, dyadic=True, near_bound=None):
     """(tIn, tOut, L, T, r, sm, c) admissible, thickness over four decades"""
-    L = dy(rng, 16, 31, -11, 3)                       # 0.0078 .. 248
-    r = Fraction(rng.randint(2, 14), 16)
-    sm = rng.choice([Fraction(1, 32), Fraction(1, 16), Fraction(1, 8), Fraction(1, 4),
-                     Fraction(1, 2), Fraction(3, 4), Fraction(1)])
-    lo = L * (Fraction(1, 2) + sm) / r
     if near_bound is None:
         near_bound = rng.random() < 0.3
+    if near_bound:
+        # tails at the bound: whatever WallGoManager.buildGrid / EOM._updateGrid really produce
+        return executed_params(rng)[0]
+    L = dy(rng, 16, 31, -11, 3)                       # 0.0078 .. 248
+    r = rng.choice([Fraction(1, 32), Fraction(1, 16), Fraction(15, 16), Fraction(31, 32)]) \
+        if rng.random() < 0.15 else Fraction(rng.randint(2, 14), 16)
+    sm = rng.choice([Fraction(1, 256), Fraction(1, 64), Fraction(1, 32), Fraction(1, 16),
+                     Fraction(float(0.1)), Fraction(1, 8), Fraction(1, 4), Fraction(1, 2),
+                     Fraction(3, 4), Fraction(1)])
+    lo = L * (Fraction(1, 2) + sm) / r
 
     def tail():
-        if near_bound and rng.random() < 0.7:
-            # what EOM._updateGrid produces: L (0.5 + 1.05 sm) / r
-            return L * (Fraction(1, 2) + Fraction(21, 20) * sm) / r
         return lo * (1 + dy(rng, 1, 15, -6, 2))
     tIn = tail()
     if equal is None:
@@ -71,6 +73,39 @@ def rand_g3(rng, equal=None, dyadic=True, near_bound=None):
         if not (vals[0] > lo2 and vals[1] > lo2):
             return rand_g3(rng, equal, dyadic, near_bound)
     return vals
+
+
+def executed_params(rng, M=8, N=5):
+    """A grid as the two production callers make it: WallGoManager.buildGrid (tails
+    max(mfp, ...)/Tn from the configuration) and then, usually, EOM._updateGrid (tails
+    max(mfp gamma, ...)).  Their formulas are executed, not copied.  Returns (params, grid)."""
+    from types import SimpleNamespace
+    from WallGo.containers import WallParams
+    from WallGo.equationOfMotion import EOM
+    from WallGo.manager import WallGoManager
+    r = Fraction(rng.randint(2, 14), 16)
+    sm = rng.choice([Fraction(1, 32), Fraction(1, 16), Fraction(float(0.1)), Fraction(1, 8),
+                     Fraction(1, 4), Fraction(1, 2), Fraction(1)])
+    mgr = WallGoManager.__new__(WallGoManager)
+    mgr.config = SimpleNamespace(configGrid=SimpleNamespace(
+        momentumGridSize=N, spatialGridSize=M, ratioPointsWall=float(r), smoothing=float(sm)))
+    mgr.phasesAtTn = SimpleNamespace(temperature=float(dy(rng, 8, 31, -4, 4)))
+    L = float(dy(rng, 16, 31, -7, 3))
+    mfp = L * float(dy(rng, 1, 31, -6, 2))      # from well below to well above the bound
+    g = mgr.buildGrid(L, mfp, float(dy(rng, 8, 31, -6, 3)))
+    if rng.random() < 0.7:
+        eom = EOM.__new__(EOM)
+        eom.grid, eom.meanFreePathScale, eom.includeOffEq = g, mfp / 7.0, rng.random() < 0.8
+        nf = rng.randint(1, 3)
+        w = float(g.wallThickness) * float(dy(rng, 8, 24, -4, -4))
+        widths = np.array([w * float(dy(rng, 8, 24, -4, -4)) for _ in range(nf)])
+        offs = np.array([0.0] + [float(dy(rng, 1, 31, -5, -5)) * rng.choice([1, -1])
+                                 for _ in range(nf - 1)])
+        eom._updateGrid(WallParams(widths=widths, offsets=offs), rng.randint(5, 95) / 100)
+    p = [Fraction(float(x)) for x in (g.tailLengthInside, g.tailLengthOutside, g.wallThickness,
+                                      g.momentumFalloffT, g.ratioPointsWall, g.smoothing,
+                                      g.wallCenter)]
+    return p, g
 
 
 def mk_g3(p, M=8, N=5, spacing="Spectral"):
@@ -387,6 +422,167 @@ def check_maps(ctx, once, g, case, label, three):
     return float(err.max()), float(inner[int(np.argmax(err))])
 
 
+def _same(a, b, scale):
+    """arrays equal (inf == inf), finite entries to 1e-12"""
+    a, b = np.asarray(a, dtype=float), np.asarray(b, dtype=float)
+    if a.shape != b.shape:
+        return False
+    fa, fb = np.isfinite(a), np.isfinite(b)
+    if not np.array_equal(fa, fb) or not np.array_equal(a[~fa], b[~fb]):
+        return False
+    return bool(np.all(np.abs(a[fa] - b[fb]) <= 1e-12 * (np.abs(b[fb]) + scale)))
+
+
+def obj_scale(g, three):
+    sc = abs(float(getattr(g, "wallThickness", g.positionFalloff))) + abs(float(g.momentumFalloffT))
+    if three:
+        sc += abs(float(g.tailLengthInside)) + abs(float(g.tailLengthOutside)) + \
+            abs(float(g.wallCenter))
+    return sc
+
+
+def getters_vs_maps(ctx, once, g, case, label, three):
+    ctx.count("getters_" + label)
+    col = Collect()
+    _getters(col, g, three)
+    for key, what in col.items:
+        once(ctx, "%s: %s" % (label, what), dict(kind="getter", three=three, case=case,
+                                                which=key), key)
+
+
+def _getters(col, g, three):
+    """The public getters are the only interface BoltzmannSolver / EOM / Polynomial use: on
+    every object (fresh or with a history) getCoordinates and getCompactificationDerivatives
+    must be the maps of getCompactCoordinates, for both values of `endpoints` (the ends are
+    the limits -inf/+inf of the maps) and for every `direction`."""
+    sc = obj_scale(g, three)
+
+    def bad(which, detail):
+        col(None, "%s %s" % (which, detail), None, "getter-vs-map:" + which)
+    try:
+        cc = g.getCompactCoordinates()
+        xs = g.getCoordinates()
+        js = g.getCompactificationDerivatives()
+        cce = g.getCompactCoordinates(endpoints=True)
+        xe = g.getCoordinates(endpoints=True)
+        je = g.getCompactificationDerivatives(endpoints=True)
+    except Exception as ex:   # noqa: BLE001
+        bad("getter", "raised %r" % ex)
+        return
+    if not (len(cc) == len(xs) == len(js) == len(cce) == len(xe) == len(je) == 3):
+        bad("getter", "does not return three arrays")
+        return
+    dec = g.decompactify(*cc)
+    jac = g.compactificationDerivatives(*cc)
+    attrs = (("chiValues", "rzValues", "rpValues"), ("xiValues", "pzValues", "ppValues"),
+             ("dxidchi", "dpzdrz", "dppdrp"))
+    for k in range(3):
+        if not _same(xs[k], dec[k], sc):
+            bad("getCoordinates[%d]" % k, "differs from decompactify(getCompactCoordinates) "
+                "by %.3g" % np.max(np.abs(np.asarray(xs[k]) - np.asarray(dec[k]))))
+        if not _same(js[k], jac[k], sc):
+            bad("getCompactificationDerivatives[%d]" % k,
+                "differs from compactificationDerivatives(getCompactCoordinates)")
+        for got, nm in ((cc[k], attrs[0][k]), (xs[k], attrs[1][k]), (js[k], attrs[2][k])):
+            if not _same(got, getattr(g, nm), sc):
+                bad("getter/" + nm, "differs from the attribute %s" % nm)
+        # endpoints=True: interior unchanged, ends are the ends of the compact interval and
+        # the limits of the maps there
+        lo = [] if k == 2 else [-1.0]
+        if not _same(cce[k], np.concatenate([lo, cc[k], [1.0]]), sc):
+            bad("getCompactCoordinates(endpoints)[%d]" % k, "is not [-1,] nodes [,1]")
+        lo = [] if k == 2 else [-np.inf]
+        if not _same(xe[k], np.concatenate([lo, xs[k], [np.inf]]), sc):
+            bad("getCoordinates(endpoints)[%d]" % k, "is not [-inf,] coordinates [,inf]")
+        lo = [] if k == 2 else [np.inf]
+        if not _same(je[k], np.concatenate([lo, js[k], [np.inf]]), sc):
+            bad("getCompactificationDerivatives(endpoints)[%d]" % k,
+                "is not [inf,] Jacobians [,inf]")
+    for k, d in enumerate(("z", "pz", "pp")):
+        for ep, ref in ((False, cc), (True, cce)):
+            try:
+                got = g.getCompactCoordinates(endpoints=ep, direction=d)
+            except Exception as ex:   # noqa: BLE001
+                bad("getCompactCoordinates(direction)", "raised %r" % ex)
+                continue
+            if not _same(got, ref[k], sc):
+                bad("getCompactCoordinates(direction=%s)" % d, "differs from component %d" % k)
+
+
+def node_failures(g, three):
+    """Clauses about the compact nodes and the cached arrays AS STORED (no sorting, no
+    de-duplication): open domain, strictly increasing, sizes, finite images."""
+    out = []
+    M, N = int(g.M), int(g.N)
+    chi, rz, rp = (np.asarray(getattr(g, a), dtype=float) for a in
+                   ("chiValues", "rzValues", "rpValues"))
+    for nm, a, n in (("chiValues", chi, M - 1), ("rzValues", rz, N - 1), ("rpValues", rp, N - 1)):
+        if a.shape != (n,):
+            out.append((nm, "has shape %r, expected (%d,)" % (a.shape, n)))
+        if not np.all(np.isfinite(a)):
+            out.append((nm, "is not finite"))
+        elif a.size and not np.all(np.diff(a) > 0):
+            out.append((nm, "is not strictly increasing"))
+    if chi.size and not (np.all(chi > -1) and np.all(chi < 1)):
+        out.append(("chiValues", "leaves (-1,1)"))
+    if rz.size and not (np.all(rz > -1) and np.all(rz < 1)):
+        out.append(("rzValues", "leaves (-1,1)"))
+    if rp.size and not (np.all(rp >= -1) and np.all(rp < 1) and rp[0] == -1):
+        out.append(("rpValues", "is not in [-1,1) starting at -1"))
+    # the documented node formulas of both spacings
+    if g.spacing == "Spectral":
+        want = (-np.cos(np.arange(1, M) * np.pi / M), -np.cos(np.arange(1, N) * np.pi / N),
+                -np.cos(np.arange(0, N - 1) * np.pi / (N - 1)))
+    else:
+        want = (-1 + 2 * np.arange(1, M) / M, -1 + 2 * np.arange(1, N) / N,
+                -1 + 2 * np.arange(0, N - 1) / (N - 1))
+    for nm, a, w in zip(("chiValues", "rzValues", "rpValues"), (chi, rz, rp), want):
+        if a.shape == w.shape and not np.allclose(a, w, rtol=0, atol=4e-16 * 4):
+            out.append((nm, "is not the %s node set" % g.spacing))
+    for nm in ("xiValues", "pzValues", "ppValues", "dxidchi", "dpzdrz", "dppdrp"):
+        a = np.asarray(getattr(g, nm), dtype=float)
+        if not np.all(np.isfinite(a)):
+            out.append((nm, "is not finite"))
+        elif nm.endswith("Values") and a.size > 1 and not np.all(np.diff(a) > 0):
+            out.append((nm, "is not strictly increasing"))
+        elif not nm.endswith("Values") and not np.all(a > 0):
+            out.append((nm, "is not positive"))
+    pp = np.asarray(g.ppValues, dtype=float)
+    if pp.size and np.isfinite(pp[0]) and not (pp[0] == 0 and np.all(pp >= 0)):
+        out.append(("ppValues", "does not start at p_par = 0 / has negative entries"))
+    return out
+
+
+def check_nodes(ctx, once, g, case, label, three):
+    ctx.count("nodes_" + label)
+    for nm, why in node_failures(g, three):
+        once(ctx, "%s (M=%s, N=%s, spacing=%s): %s %s" % (label, g.M, g.N, g.spacing, nm, why),
+             dict(kind="nodes", three=three, case=case, attr=nm), "nodes:%s:%s" % (nm, why[:24]))
+
+
+def doctored_grids_fail(ctx):
+    """self-test of check_nodes: grids whose nodes were tampered with must be flagged"""
+    def doctor(f):
+        g = mk_g1(1, 1, 8, 5)
+        f(g)
+        g._cacheCoordinates()
+        return g
+
+    def d1(g): g.rzValues = np.append(g.rzValues[:-1], 1.0)
+    def d2(g): g.rpValues = np.append(g.rpValues[:-1], 1.0)
+    def d3(g): g.rpValues = np.concatenate([[-1.5], g.rpValues[1:]])
+    def d4(g): g.chiValues = g.chiValues[::-1].copy()
+    def d5(g): g.chiValues = np.append(g.chiValues[:-1], 1.0)
+    def d6(g): g.rzValues = g.rzValues[:-1]
+    with np.errstate(all="ignore"):
+        for k, f in enumerate((d1, d2, d3, d4, d5, d6), 1):
+            if not node_failures(doctor(f), False):
+                ctx.broken.append("harness self-test: doctored grid %d passes the node clauses" % k)
+    if node_failures(mk_g1(1, 1, 8, 5), False) or node_failures(mk_g1(1, 1, 9, 7, "Uniform"), False):
+        ctx.broken.append("harness self-test: an untouched grid fails the node clauses")
+
+
+
 def snapshot(g, three):
     d = {}
     for a in ARR:
@@ -433,105 +629,301 @@ def diff_snap(a, b):
     return bad
 
 
-def apply_ops(init, ops, three, M=8, N=5, spacing="Spectral"):
-    g = mk_g3(init, M, N, spacing) if three else mk_g1(init[0], init[1], M, N, spacing)
-    for o in ops:
-        if o[0] == "pos":
-            g.changePositionFalloffScale(*[float(x) for x in o[1:]])
+# ---------------------------------------------------------------------------------------
+# histories on one object
+
+def tonum(x, numtype):
+    """the scale as the caller's type: python float, numpy scalar, or int when integral"""
+    q = Fraction(x)
+    if numtype == "np64":
+        return np.float64(float(q))
+    if numtype == "int" and q.denominator == 1:
+        return int(q)
+    if numtype == "arr0":
+        return np.array(float(q))
+    return float(q)
+
+
+class Collect:
+    def __init__(self):
+        self.items = []
+
+    def __call__(self, ctx, what, rep, key):
+        self.items.append((key, what))
+
+
+def tail_bound(g, L):
+    """the asserted lower bound of both tails for thickness L on the live object"""
+    return float(L) * (0.5 + float(g.smoothing)) / float(g.ratioPointsWall)
+
+
+def exec_op(h, o):
+    """execute one op of a history on h['g']; returns ('ok'|'rejected'|'accepted-bad', exc)"""
+    g, nt, three = h["g"], h["numtype"], h["three"]
+    kind = o[0]
+    if kind == "mom":
+        g.changeMomentumFalloffScale(tonum(o[1], nt))
+    elif kind == "pos" and not three:
+        g.changePositionFalloffScale(tonum(o[1], nt))
+    elif kind == "pos":
+        fi, fo, L, c = (Fraction(x) for x in o[1:])
+        lo = tail_bound(g, L)
+        g.changePositionFalloffScale(tonum(Fraction(lo * (1 + float(fi))), nt),
+                                     tonum(Fraction(lo * (1 + float(fo))), nt),
+                                     tonum(L, nt), tonum(c, nt))
+    elif kind == "posabs":       # absolute arguments (recorded replays)
+        g.changePositionFalloffScale(*[tonum(x, nt) for x in o[1:]])
+    elif kind == "drift":        # the wall moves at bit-identical scales
+        g.changePositionFalloffScale(g.tailLengthInside, g.tailLengthOutside, g.wallThickness,
+                                     g.wallCenter + float(Fraction(o[1])) * g.wallThickness)
+    elif kind == "repeat":
+        g.changePositionFalloffScale(g.tailLengthInside, g.tailLengthOutside, g.wallThickness,
+                                     g.wallCenter)
+    elif kind == "reinit":
+        if three:
+            g.__init__(g.M, g.N, *[tonum(x, nt) for x in o[1:]], g.spacing)
         else:
-            g.changeMomentumFalloffScale(float(o[1]))
-    return g
+            g.__init__(g.M, g.N, tonum(o[1], nt), tonum(o[2], nt), g.spacing)
+    elif kind == "copy":
+        import copy
+        h["old"] = (g, snapshot(g, three))
+        h["g"] = copy.copy(g)
+    elif kind == "eom":
+        from WallGo.containers import WallParams
+        from WallGo.equationOfMotion import EOM
+        eom = EOM.__new__(EOM)      # _updateGrid reads only these three attributes
+        eom.grid, eom.meanFreePathScale, eom.includeOffEq = g, float(Fraction(h["mfp"])), h["inc"]
+        eom._updateGrid(WallParams(widths=np.array([float(Fraction(x)) for x in o[2]]),
+                                   offsets=np.array([float(Fraction(x)) for x in o[3]])),
+                        float(Fraction(o[1])))
+    elif kind == "bad":
+        # a call that violates one assertion of _updateParameters; the caller catches the error
+        which = o[1]
+        tIn, tOut, L, c = g.tailLengthInside, g.tailLengthOutside, g.wallThickness, g.wallCenter
+        f = float(Fraction(o[2]))
+        if which == "thickness<=0":
+            L = -f * L if f else 0.0
+        elif which == "tailIn":
+            tIn = tail_bound(g, L) * (1 - f)
+        elif which == "tailOut":
+            tOut = tail_bound(g, L) * (1 - f)
+        elif which == "thickness-grows":      # tails unchanged, thickness far too large for them
+            L = (1 + f) * max(tIn, tOut) * g.ratioPointsWall / (0.5 + g.smoothing)
+        try:
+            g.changePositionFalloffScale(tIn, tOut, L, c + 0.25 * abs(L))
+        except Exception as ex:   # noqa: BLE001
+            return "rejected", ex
+        return "accepted-bad", None
+    else:
+        raise ValueError("unknown op %r" % (o,))
+    return "ok", None
 
 
-def rand_ops(rng, init, three, n):
-    """random rescaling calls; position calls include centre-only changes, exact repeats
-    and scale changes (always admissible)"""
+def start_history(case):
+    three = case["three"]
+    nt = case.get("numtype", "float")
+    init = case["init"]
+    M, N, spacing = case.get("M", 8), case.get("N", 5), case.get("spacing", "Spectral")
+    if three:
+        from WallGo.grid3Scales import Grid3Scales
+        args = [tonum(x, nt) for x in init]
+        if case.get("defaults"):        # ratioPointsWall, smoothing, wallCenter, spacing omitted
+            g = Grid3Scales(M, N, *args[:4])
+        else:
+            g = Grid3Scales(M, N, *args, spacing)
+    else:
+        from WallGo.grid import Grid
+        g = Grid(M, N, tonum(init[0], nt), tonum(init[1], nt)) if case.get("defaults") else \
+            Grid(M, N, tonum(init[0], nt), tonum(init[1], nt), spacing)
+    return dict(g=g, three=three, numtype=nt, mfp=case.get("mfp", "1"), inc=case.get("inc", True),
+                old=None)
+
+
+def judge(h, status, before, label):
+    """failures (key, what) of the object after one op"""
+    g, three = h["g"], h["three"]
+    col = Collect()
+    if status == "accepted-bad":
+        col(None, "a call violating an assertion of _updateParameters was accepted", None,
+            "inadmissible-call-accepted")
+    if status == "rejected":
+        for nm in diff_snap(snapshot(g, three), before):
+            col(None, "a REJECTED changePositionFalloffScale (the caller catches the error) "
+                "changed %s" % nm, None, "rejected-call-changes-state:" + nm)
+    try:
+        fr = snapshot(fresh(g, three), three)
+    except Exception as ex:   # noqa: BLE001
+        fr = None
+        col(None, "the constructor rejects the object's own parameters (%r): no constructor "
+            "call yields this object" % ex, None, "object-not-constructible")
+    for nm in (diff_snap(snapshot(g, three), fr) if fr is not None else []):
+        if three and nm == "positionFalloff":
+            continue                     # known finding g3-positionFalloff-stale (witness replay)
+        col(None, "%s differs from a freshly constructed grid" % nm, None,
+            "rescale-vs-new:" + nm)
+    gcol = Collect()
+    _getters(gcol, g, three)
+    col.items += gcol.items
+    for nm, why in node_failures(g, three):
+        col(None, "%s %s" % (nm, why), None, "nodes:%s:%s" % (nm, why[:24]))
+    if h["old"] is not None:
+        og, osnap = h["old"]
+        for nm in diff_snap(snapshot(og, three), osnap):
+            col(None, "rescaling a copy.copy of a grid changed %s of the original" % nm, None,
+                "copy-aliasing:" + nm)
+    return col.items
+
+
+def run_history(case, ops=None):
+    """first step (1-based) after which the object is wrong, with the failures; or None"""
+    ops = case["ops"] if ops is None else ops
+    h = start_history(case)
+    fails = judge(h, "ok", None, "history")
+    if fails:
+        return 0, fails
+    for k, o in enumerate(ops):
+        before = snapshot(h["g"], h["three"]) if o[0] == "bad" else None
+        try:
+            status, _ = exec_op(h, o)
+        except Exception as ex:   # noqa: BLE001
+            return k + 1, [("history-raises:%s:%s" % (o[0], type(ex).__name__),
+                            "op %r raised %r" % (o, ex))]
+        fails = judge(h, status, before, "history")
+        if fails:
+            return k + 1, fails
+    return None
+
+
+def rand_history(rng, three):
+    M, N = rng.choice([(6, 5), (8, 5), (11, 7), (20, 11), (30, 11)])
+    spacing = rng.choice(["Spectral", "Spectral", "Uniform"])
+    numtype = rng.choice(["float", "float", "np64", "int", "arr0"])
+    defaults = rng.random() < 0.2
+    if three:
+        init = rand_g3(rng)
+        if numtype == "int":      # integer-typed scales as in tests/test_Grid3Scales.py
+            L = Fraction(rng.randint(1, 4))
+            r, sm = (Fraction(1, 2), Fraction(1, 10)) if defaults else (init[4], init[5])
+            lo = L * (Fraction(1, 2) + sm) / r
+            init = [Fraction(math.floor(lo) + rng.randint(1, 30)),
+                    Fraction(math.floor(lo) + rng.randint(1, 30)), L,
+                    Fraction(rng.randint(1, 200)), r, sm, Fraction(rng.randint(-3, 3))]
+        if defaults:
+            lo = init[2] * Fraction(3, 5) / Fraction(1, 2)
+            t1, t2 = max(init[0], lo * 2), max(init[1], lo * 2)
+            init = [t1, t2, init[2], init[3], Fraction(1, 2), Fraction(float(0.1)), Fraction(0)]
+            spacing = "Spectral"
+    else:
+        init = [dy(rng, 16, 31, -11, 3), dy(rng, 8, 31, -6, 3)]
+        if numtype == "int":
+            init = [Fraction(rng.randint(1, 50)), Fraction(rng.randint(1, 200))]
+        if defaults:
+            spacing = "Spectral"
     ops = []
-    cur = list(init)
-    for _ in range(n):
+    n = rng.randint(4, 8)
+    while len(ops) < n:
         u = rng.random()
-        if u < 0.3:
-            T = dy(rng, 8, 31, -6, 3)
-            ops.append(("mom", T))
+        if u < 0.2:
+            ops.append(["mom", Fraction(rng.randint(1, 200)) if numtype == "int"
+                        else dy(rng, 8, 31, -6, 3)])
         elif not three:
-            ops.append(("pos", dy(rng, 16, 31, -11, 3)))
-        else:
-            tIn, tOut, L, T, r, sm, c = cur
-            v = rng.random()
-            if v < 0.3:      # the wall drifts at fixed scales
-                c = c + L * dy(rng, 1, 15, -4, 1) * rng.choice([1, -1])
-            elif v < 0.4:    # exact repeat
-                pass
+            if u < 0.9:
+                ops.append(["pos", Fraction(rng.randint(1, 50)) if numtype == "int"
+                            else dy(rng, 16, 31, -11, 3)])
+            elif u < 0.95:
+                ops.append(["reinit", dy(rng, 16, 31, -11, 3), dy(rng, 8, 31, -6, 3)])
             else:
-                p = rand_g3(rng)
-                # keep r, sm of the object: rescale the new tails to stay admissible
-                L = p[2]
-                lo = L * (Fraction(1, 2) + sm) / r
-                tIn = lo * (1 + dy(rng, 1, 15, -6, 2))
-                tOut = tIn if rng.random() < 0.3 else lo * (1 + dy(rng, 1, 15, -6, 2))
-                tIn, tOut, L = (Fraction(float(x)) for x in (tIn, tOut, L))
-                if not (tIn > lo and tOut > lo):
-                    continue
-                c = p[6] if rng.random() < 0.7 else c
-            cur = [tIn, tOut, L, T, r, sm, c]
-            ops.append(("pos", tIn, tOut, L, c))
-    return ops
+                ops.append(["copy"])
+        elif u < 0.45:
+            L = Fraction(rng.randint(1, 9)) if numtype == "int" else dy(rng, 16, 31, -11, 3)
+            fi = dy(rng, 1, 15, -6, 2)
+            fo = fi if rng.random() < 0.3 else dy(rng, 1, 15, -6, 2)
+            if rng.random() < 0.25:
+                fi = fo = Fraction(1, 20)        # close to the bound
+            c = rng.choice([Fraction(0), L * dy(rng, 1, 15, -4, 2), -L * dy(rng, 1, 15, -4, 2)])
+            ops.append(["pos", fi, fo, L, c])
+        elif u < 0.57:
+            ops.append(["drift", dy(rng, 1, 15, -4, 1) * rng.choice([1, -1])])
+        elif u < 0.62:
+            ops.append(["repeat"])
+        elif u < 0.76:
+            which = rng.choice(["thickness<=0", "tailIn", "tailOut", "thickness-grows"])
+            f = rng.choice([Fraction(0), Fraction(1, 1024), Fraction(1, 4), Fraction(9)]) \
+                if which == "thickness<=0" else rng.choice([Fraction(1, 1024), Fraction(1, 4),
+                                                           Fraction(9, 10)])
+            if which == "thickness-grows":
+                f = rng.choice([Fraction(1, 64), Fraction(1), Fraction(9)])
+            ops.append(["bad", which, f])
+        elif u < 0.80:
+            p = rand_g3(rng)
+            ops.append(["reinit"] + p)
+        elif u < 0.84:
+            ops.append(["copy"])
+        else:
+            nf = rng.randint(1, 3)
+            w = dy(rng, 16, 31, -9, 1)
+            widths = [w * dy(rng, 8, 24, -4, -4) for _ in range(nf)]
+            offs = [Fraction(0)] + [dy(rng, 1, 31, -5, -5) * rng.choice([1, -1])
+                                    for _ in range(nf - 1)]
+            v = Fraction(rng.randint(5, 95), 100)
+            ops.append(["eom", v, widths, offs])
+            if nf > 1 and rng.random() < 0.6:     # same thickness and tails, centre moves
+                ops.append(["eom", v, widths, [-x for x in offs]])
+    mfp = dy(rng, 16, 31, -9, 3)
+    return dict(three=three, M=M, N=N, spacing=spacing, numtype=numtype, defaults=defaults,
+                init=jp(init), ops=jops(ops), mfp=str(mfp), inc=rng.random() < 0.8)
 
 
 def jops(ops):
-    return [[o[0]] + [str(Fraction(x)) for x in o[1:]] for o in ops]
+    def j(x):
+        if isinstance(x, (list, tuple)):
+            return [j(y) for y in x]
+        if isinstance(x, str):
+            return x
+        return str(Fraction(x))
+    return [[o[0]] + [j(x) for x in o[1:]] for o in ops]
 
 
-def check_ops(ctx, once, rng, three, nseq, nops):
+def check_histories(ctx, once, rng, three, nseq):
     for _ in range(nseq):
-        M, N = rng.choice([(6, 5), (8, 5), (11, 7), (20, 11)])
-        spacing = rng.choice(["Spectral", "Spectral", "Uniform"])
-        init = rand_g3(rng) if three else [dy(rng, 16, 31, -11, 3), dy(rng, 8, 31, -6, 3)]
-        ops = rand_ops(rng, init, three, nops)
-        case = dict(three=three, M=M, N=N, spacing=spacing, init=jp(init), ops=jops(ops))
-        ctx.count("ops_three" if three else "ops_simple", case,
-                  bucket="len%d" % len(ops))
+        case = rand_history(rng, three)
+        kinds = sorted(set(o[0] for o in case["ops"]))
+        ctx.count("history_three" if three else "history_simple", case,
+                  bucket="%s|%s%s" % (case["numtype"], case["spacing"],
+                                      "|defaults" if case["defaults"] else ""))
+        for kd in kinds:
+            ctx.count("history_op_" + kd)
         try:
-            res = ops_mismatch_ignoring(jp(init), jops(ops), three, M, N, spacing)
+            res = run_history(case)
         except Exception as ex:   # noqa: BLE001
-            once(ctx, "rescaling sequence raised %r" % ex,
-                           dict(kind="ops", **case), "rescale-raises")
+            once(ctx, "constructing the grid of a history raised %r" % ex,
+                 dict(kind="history", **case), "history-raises:init:" + type(ex).__name__)
             continue
         if res is None:
             continue
-        k, bad = res
-        ops = ops[:k]
-        # shrink: drop earlier calls while the same observable still differs
+        k, fails = res
+        ops = case["ops"][:k]
+        keys = set(f[0] for f in fails)
+        # shrink: drop earlier calls while a failure of the same class still shows at the end
         changed = True
         while changed and len(ops) > 1:
             changed = False
             for i in range(len(ops) - 1):
                 trial = ops[:i] + ops[i + 1:]
-                r2 = ops_mismatch_ignoring(init, jops(trial), three, M, N, spacing)
-                if r2 is not None and r2[0] == len(trial) and set(r2[1]) & set(bad):
-                    ops, changed = trial, True
+                try:
+                    r2 = run_history(case, trial)
+                except Exception:   # noqa: BLE001
+                    continue
+                if r2 is not None and r2[0] == len(trial) and keys & set(f[0] for f in r2[1]):
+                    ops, fails, changed = trial, r2[1], True
                     break
-        once(ctx, 
-            "after %d rescaling call(s) %s differ(s) from a freshly constructed grid "
-            "(three-scale=%s, ops=%s)" % (len(ops), bad, three, jops(ops)),
-            dict(kind="ops", three=three, M=M, N=N, spacing=spacing, init=jp(init),
-                 ops=jops(ops), differs=bad), "rescale-vs-new:" + bad[0])
-
-
-def ops_mismatch_ignoring(init, jo, three, M, N, spacing, ignore=("positionFalloff",)):
-    init = [Fraction(x) for x in init]
-    ops = [tuple([o[0]] + [Fraction(x) for x in o[1:]]) for o in jo]
-    g = mk_g3(init, M, N, spacing) if three else mk_g1(init[0], init[1], M, N, spacing)
-    for k, o in enumerate(ops):
-        if o[0] == "pos":
-            g.changePositionFalloffScale(*[float(x) for x in o[1:]])
-        else:
-            g.changeMomentumFalloffScale(float(o[1]))
-        bad = [b for b in diff_snap(snapshot(g, three), snapshot(fresh(g, three), three))
-               if not (three and b in ignore)]
-        if bad:
-            return k + 1, bad
-    return None
+        small = dict(case)
+        small["ops"] = ops
+        for key in sorted(set(f[0] for f in fails)):
+            what = [f[1] for f in fails if f[0] == key][0]
+            once(ctx, "after %d call(s) on one %s object: %s (ops=%s)" % (
+                len(ops), "Grid3Scales" if three else "Grid", what, ops),
+                dict(kind="history", differs=sorted(keys), **small), key)
 
 
 # the witnesses of the *_refuted theorems of Props/C17.v, replayed on the implementation
@@ -558,7 +950,8 @@ def replay_witnesses(ctx, once):
         ctx.broken.append("witness: g3_compactify_refuted does not reproduce on the "
                           "implementation (model and code disagree)")
     init = [Fraction(x) for x in W_STALE["init"]]
-    g = apply_ops(init, [("pos", 5, 5, 2, 0)], True)
+    g = mk_g3(init)
+    g.changePositionFalloffScale(5.0, 5.0, 2.0, 0.0)
     f = fresh(g, True)
     ctx.log("witness g3_positionFalloff_stale_refuted on the implementation: "
             "positionFalloff %r, fresh grid %r" % (g.positionFalloff, f.positionFalloff))
@@ -594,6 +987,17 @@ def certified_stage(ctx, once, rng):
         rows = impl_rows(g, rand_compact(rng, npts), rand_compact(rng, 2),
                          [Fraction(-1), Fraction(rng.randint(-1000, 1000), 1024)],
                          with_com=(m % 2 == 0))
+        if m % 2 == 1:
+            # what the consumers read: getter outputs of a production-size grid at its own nodes
+            M, N = rng.choice([(20, 11), (30, 11), (50, 21)])
+            gb = mk_g3(p, M, N, rng.choice(["Spectral", "Uniform"]))
+            cc, xs, js = gb.getCompactCoordinates(), gb.getCoordinates(), \
+                gb.getCompactificationDerivatives()
+            for k, nn in ((0, M - 1), (1, N - 1), (2, N - 1)):
+                for i in sorted(set([0, nn // 2, nn - 1])):
+                    x = Fraction(float(cc[k][i]))
+                    rows.append(("dec%d" % (k + 1), x, float(xs[k][i])))
+                    rows.append(("jac%d" % (k + 1), x, float(js[k][i])))
         rows = finite_rows(ctx, once, dict(three=True, params=jp(p)), rows)
         files.append((dict(three=True, params=jp(p)), rows,
                       ctx.write("Cases/Eval3_%d.v" % m, eval_file_g3(p, rows))))
@@ -614,7 +1018,7 @@ def certified_stage(ctx, once, rng):
         procs.append((case, rows, path, subprocess.Popen(
             ["timeout", "900", "coqc"] + ctx.coq_args() + [path], cwd=ctx.bdir,
             stdout=subprocess.PIPE, stderr=subprocess.PIPE, text=True)))
-        if len(procs) >= 14:
+        if len(procs) >= 6:       # at most six coqc at a time
             done += [(c, r, p, pr, pr.communicate()) for c, r, p, pr in procs]
             procs = []
     done += [(c, r, p, pr, pr.communicate()) for c, r, p, pr in procs]
@@ -646,19 +1050,37 @@ def certified_stage(ctx, once, rng):
 # ---------------------------------------------------------------------------------------
 
 def run(ctx):
+    import glob
+    import os
     src1 = vlib.read_src("grid.py")
     src3 = vlib.read_src("grid3Scales.py")
-    gen_ok = True
+    gen_ok = facts_ok = True
+    text = ftext = ""
+    info = finfo = {}
     try:
         text, info = gen_grid.generate(src1, src3)
-        ctx.write("GridGen.v", text, sources=dict(
-            files=["src/WallGo/grid.py", "src/WallGo/grid3Scales.py"],
-            sha=[vlib.sha(src1), vlib.sha(src3)], info=info))
     except pyrx.TranslateError as e:
         ctx.log("translator failed:", e)
         ctx.broken.append("translator: %s" % e)
         gen_ok = False
-    proved = gen_ok and ctx.prove(extra=["GridGen.v"], timeout=600)
+    try:
+        srcs = {os.path.basename(f): open(f).read()
+                for f in sorted(glob.glob(vlib.src_path("*.py")))}
+        ftext, finfo = gen_grid.generate_facts(srcs)
+        for w in finfo["foreign_grid_writes"]:
+            ctx.log("a grid object is written outside grid.py/grid3Scales.py: %s:%d %s" % w)
+    except (pyrx.TranslateError, KeyError, SyntaxError) as e:
+        ctx.log("fact extraction failed:", e)
+        ctx.broken.append("translator(facts about the callers of the grid): %s" % e)
+        facts_ok = False
+    if gen_ok:
+        ctx.write("GridGen.v", text + (ftext if facts_ok else ""), sources=dict(
+            files=["src/WallGo/grid.py", "src/WallGo/grid3Scales.py",
+                   "src/WallGo/equationOfMotion.py (EOM._updateGrid)",
+                   "src/WallGo/manager.py (WallGoManager.buildGrid)",
+                   "src/WallGo/*.py (writes to grid objects)"],
+            sha=[vlib.sha(src1), vlib.sha(src3)], info=info, facts=finfo))
+    proved = gen_ok and facts_ok and ctx.prove(extra=["GridGen.v"], timeout=600)
     ctx.trusted += ["tools/pyrx.py + tools/gen_grid.py (AST translator, fail-closed)",
                     "Lib/GridMapsCache.v: meaning of attribute stores and of calling a "
                     "separable point function on the three compact arrays (component-wise "
@@ -677,6 +1099,7 @@ def run(ctx):
             ctx.broken.append("harness: certified evaluation stage raised %r" % ex)
 
     # --- (4) the property on the implementation -----------------------------------------
+    doctored_grids_fail(ctx)
     replay_witnesses(ctx, once)
     worst_rt = 0.0
     for m in range(ctx.n(150, 1500)):
@@ -687,6 +1110,8 @@ def run(ctx):
         try:
             g = mk_g3(p, M, N, spacing)
             rt = check_maps(ctx, once, g, case, "three-scale", True)
+            getters_vs_maps(ctx, once, g, case, "three-scale", True)
+            check_nodes(ctx, once, g, case, "three-scale", True)
         except Exception as ex:   # noqa: BLE001
             once(ctx, "Grid3Scales raised %r" % ex, dict(kind="maps", three=True,
                                                             case=case), "g3-raises")
@@ -707,6 +1132,8 @@ def run(ctx):
         try:
             g = mk_g1(L, T, M, N, spacing)
             rt = check_maps(ctx, once, g, case, "simple", False)
+            getters_vs_maps(ctx, once, g, case, "simple", False)
+            check_nodes(ctx, once, g, case, "simple", False)
         except Exception as ex:   # noqa: BLE001
             once(ctx, "Grid raised %r" % ex, dict(kind="maps", three=False, case=case),
                            "simple-raises")
@@ -716,8 +1143,26 @@ def run(ctx):
             once(ctx, "Grid: compactify(decompactify(%r)) is off by %.3g" % (rt[1], rt[0]),
                            dict(kind="maps", three=False, case=case, chi=rt[1]),
                            "simple-inverse")
-    check_ops(ctx, once, rng, True, ctx.n(80, 800), ctx.n(5, 8))
-    check_ops(ctx, once, rng, False, ctx.n(30, 200), ctx.n(5, 8))
+    for m in range(ctx.n(40, 400)):
+        # objects made by the production callers (buildGrid, then _updateGrid): a history
+        try:
+            p, g = executed_params(rng, *rng.choice([(8, 5), (20, 11), (30, 11)]))
+        except Exception as ex:   # noqa: BLE001
+            once(ctx, "WallGoManager.buildGrid / EOM._updateGrid raised %r" % ex,
+                 dict(kind="executed", seed_index=m), "callers-raise:" + type(ex).__name__)
+            continue
+        case = dict(params=jp(p), M=int(g.M), N=int(g.N), spacing=g.spacing, executed=True)
+        ctx.count("executed_grid", case)
+        check_maps(ctx, once, g, case, "three-scale", True)
+        getters_vs_maps(ctx, once, g, case, "three-scale", True)
+        check_nodes(ctx, once, g, case, "three-scale", True)
+        for nm in diff_snap(snapshot(g, True), snapshot(fresh(g, True), True)):
+            if nm != "positionFalloff":
+                once(ctx, "a grid made by buildGrid/_updateGrid differs in %s from a new grid "
+                     "with its parameters" % nm, dict(kind="maps", three=True, case=case),
+                     "rescale-vs-new:" + nm)
+    check_histories(ctx, once, rng, True, ctx.n(120, 1200))
+    check_histories(ctx, once, rng, False, ctx.n(40, 300))
     once.summary(ctx)
 
     ctx.cov["rule"] = (
@@ -744,16 +1189,27 @@ def replay(rep):
         z = g.decompactify(np.array(rep["chi"]), np.array(0.0), np.array(0.0))[0]
         print("decompactify(%r) = %r ; compactify(.) = %r" % (
             rep["chi"], float(z), float(g.compactify(z, 0.0, 0.0)[0])))
-    elif kind in ("stale", "ops"):
-        three = rep.get("three", True)
-        init = [Fraction(x) for x in rep["init"]]
-        ops = [tuple([o[0]] + [Fraction(x) for x in o[1:]]) for o in rep["ops"]]
-        g = apply_ops(init, ops, three, rep.get("M", 8), rep.get("N", 5),
-                      rep.get("spacing", "Spectral"))
-        f = fresh(g, three)
-        a, b = snapshot(g, three), snapshot(f, three)
+    elif kind in ("stale", "ops", "history"):
+        case = dict(rep)
+        case.setdefault("three", True)
+        if kind != "history":        # recorded format: absolute arguments
+            case["ops"] = [(["posabs"] + o[1:]) if o[0] == "pos" and case["three"] else o
+                           for o in rep["ops"]]
+        h = start_history(case)
+        for k, o in enumerate(case["ops"]):
+            before = snapshot(h["g"], h["three"])
+            try:
+                status, ex = exec_op(h, o)
+            except Exception as e2:   # noqa: BLE001
+                print("op %d %r raised %r" % (k + 1, o, e2))
+                break
+            print("op %d %r: %s %s" % (k + 1, o, status, ex if ex is not None else ""))
+            for key, what in judge(h, status, before, "replay"):
+                print("   ", key, "--", what)
+        g, three = h["g"], h["three"]
+        a, b = snapshot(g, three), snapshot(fresh(g, three), three)
         for k in diff_snap(a, b):
-            print("differs:", k, "\n  rescaled:", a[k], "\n  fresh:   ", b[k])
+            print("differs:", k, "\n  object:", a[k], "\n  fresh: ", b[k])
     elif kind == "value":
         c = rep["case"]
         g = mk_g3([Fraction(x) for x in c["params"]]) if c.get("three") else \
